@@ -26,6 +26,14 @@ def fswap {α : Type} (f : Nat → α) (i j : Nat) : Nat → α :=
 
 /-! ### The permutation-undo loops (generic in the element type) -/
 
+/-- Loop state wrapper.  A loop whose state is itself a function would be compiled with the
+    stored values recomputed at every read (the compiler merges the lambdas); wrapping the
+    function in a structure makes every stored value be computed once, when it is stored.
+    (`cnt` counts iterations and keeps the compiler from erasing the one-field wrapper.) -/
+structure Box (α : Type) where
+  val : α
+  cnt : Nat
+
 structure Undo (α : Type) where
   m        : Nat → α          -- the matrix, offset i*N + j
   perm     : Nat → Nat
@@ -33,11 +41,13 @@ structure Undo (α : Type) where
 
 /-- swap physical rows `i` and `r`:  `for j: e = entry(i,j); entry(i,j) = entry(r,j); entry(r,j) = e` -/
 def swapRows {α : Type} (N : Nat) (m : Nat → α) (i r : Nat) : Nat → α :=
-  forUp N (fun j m => fset (fset m (i*N + j) (m (r*N + j))) (r*N + j) (m (i*N + j))) m
+  (forUp N (fun j (b : Box (Nat → α)) =>
+    ⟨fset (fset b.val (i*N + j) (b.val (r*N + j))) (r*N + j) (b.val (i*N + j)), b.cnt + 1⟩) ⟨m, 0⟩).val
 
 /-- swap physical columns `j` and `c` -/
 def swapCols {α : Type} (N : Nat) (m : Nat → α) (j c : Nat) : Nat → α :=
-  forUp N (fun i m => fset (fset m (i*N + j) (m (i*N + c))) (i*N + c) (m (i*N + j))) m
+  (forUp N (fun i (b : Box (Nat → α)) =>
+    ⟨fset (fset b.val (i*N + j) (b.val (i*N + c))) (i*N + c) (b.val (i*N + j)), b.cnt + 1⟩) ⟨m, 0⟩).val
 
 /-- ```
     for (i=0; i<N; i++)
@@ -89,11 +99,6 @@ variable {K : Type} [Scalar K]
 
 /-- `MatVecBase::Abs` : `(x >= Float()) ? x : -x` -/
 def cabs (x : K) : K := if (0 : K) ≤ x then x else -x
-
-/-- wrapper used as loop state (`cnt` only keeps the compiler from erasing the wrapper) -/
-structure Box (α : Type) where
-  val : α
-  cnt : Nat
 
 structure GJ (K : Type) where
   m     : Nat → K
